@@ -174,6 +174,10 @@ fn map_hook(name: &'static str) {
             let mut g = ctl.m.lock().unwrap();
             g.map_write_waiting = None;
         }
+        "mmap:resize_done" => {
+            // every remap goes through here, whichever code path asked for it
+            let _ = ctl.resizes.fetch_add(1, std::sync::atomic::Ordering::SeqCst);
+        }
         _ => {}
     }
 }
@@ -206,9 +210,14 @@ impl pocket_db::verif::Hooks for ConcHooks {
     fn writer_enter(&self) {
         if let Some(t) = TID.with(|c| c.get()) {
             {
-                let g = self.ctl.m.lock().unwrap();
+                // A thread that asks again while the model still has it as the holder has given up
+                // its earlier transaction without committing (dropped it): the real lock is free,
+                // and the thread competes for it like everybody else. (Had it kept the earlier
+                // transaction, the engine would now block it on its own lock - the controller
+                // then reports the thread as stuck.)
+                let mut g = self.ctl.m.lock().unwrap();
                 if g.writer == Some(t) {
-                    return; // already holds it (nested acquisition by the same thread)
+                    g.writer = None;
                 }
             }
             self.ctl.yield_at(t, St::WaitWriter);
@@ -482,14 +491,16 @@ pub fn generate(rs: u64, focus: &str) -> Trace {
     let nthreads = if crate::gen::thorough() { 2 + g.rng.weighted(&[35, 35, 30]) } else { 2 + g.rng.weighted(&[55, 30, 15]) };
     let mut threads: Vec<Vec<Op>> = vec![vec![]; nthreads];
     let scenario = match focus {
-        "C04" => g.rng.weighted(&[5, 5, 0, 10, 0, 10, 70, 0, 0, 0, 0]),
-        "C15" => g.rng.weighted(&[5, 5, 5, 10, 0, 30, 35, 10, 0, 0, 0]),
-        "C18" => g.rng.weighted(&[0, 0, 0, 0, 25, 10, 0, 0, 35, 0, 30]),
-        "C09" => g.rng.weighted(&[5, 75, 0, 5, 0, 15, 0, 0, 0, 0, 0]),
-        "C10" => g.rng.weighted(&[0, 0, 10, 0, 0, 20, 0, 70, 0, 0, 0]),
-        "C11" => g.rng.weighted(&[0, 5, 60, 0, 0, 20, 0, 15, 0, 0, 0]),
-        "C17" => g.rng.weighted(&[0, 10, 0, 0, 10, 15, 0, 0, 10, 45, 10]),
-        _ => g.rng.weighted(&[14, 14, 10, 14, 8, 12, 8, 7, 6, 4, 3]),
+        "C04" => g.rng.weighted(&[5, 5, 0, 10, 0, 10, 70, 0, 0, 0, 0, 0]),
+        "C15" => g.rng.weighted(&[5, 5, 5, 10, 0, 30, 35, 10, 0, 0, 0, 0]),
+        "C18" => g.rng.weighted(&[0, 0, 0, 0, 25, 10, 0, 0, 35, 0, 30, 0]),
+        "C09" => g.rng.weighted(&[5, 75, 0, 5, 0, 15, 0, 0, 0, 0, 0, 0]),
+        "C10" => g.rng.weighted(&[0, 0, 10, 0, 0, 20, 0, 70, 0, 0, 0, 0]),
+        "C11" => g.rng.weighted(&[0, 5, 60, 0, 0, 20, 0, 15, 0, 0, 0, 0]),
+        "C05" => g.rng.weighted(&[0, 30, 0, 30, 20, 20, 0, 0, 0, 0, 0, 0]),
+        "C12" => g.rng.weighted(&[15, 5, 0, 0, 0, 10, 0, 10, 0, 0, 0, 60]),
+        "C17" => g.rng.weighted(&[0, 10, 0, 0, 10, 15, 0, 0, 10, 45, 10, 0]),
+        _ => g.rng.weighted(&[14, 14, 10, 14, 8, 12, 8, 7, 6, 4, 3, 4]),
     };
     let known: Vec<EvSpec> = g.model.events.values().cloned().collect();
     let retr: Vec<B32> = g.model.retrievable.iter().copied().collect();
@@ -725,6 +736,51 @@ pub fn generate(rs: u64, focus: &str) -> Trace {
                 threads[0].push(Op::Vanish(pk));
             }
         }
+        11 => {
+            // calls that must be refused (a duplicate, an older version, a deleted event, a request
+            // naming somebody else's event) among stores of unrelated plain events
+            let mut refused: Vec<EvSpec> = vec![];
+            for id in retr.iter().take(3) {
+                refused.push(g.model.events[id].clone());
+            }
+            if let Some(h) = known.iter().find(|e| e.addr().is_some() && g.model.retrievable.contains(&e.id) && e.at > 0) {
+                let mut older = h.clone();
+                older.id = g.rng.bytes32();
+                older.at = h.at - 1;
+                refused.push(older);
+            }
+            if let Some(v) = known.iter().find(|e| g.model.retrievable.contains(&e.id)) {
+                let others: Vec<B32> = g.authors.iter().copied().filter(|a| *a != v.pk).collect();
+                if let Some(att) = others.first() {
+                    refused.push(EvSpec { id: g.rng.bytes32(), pk: *att, kind: 5, at: v.at.saturating_add(1), tags: vec![vec!["e".into(), hex(&v.id)]], content: vec![] });
+                }
+            }
+            if refused.is_empty() {
+                refused.push(g.new_event());
+            }
+            for (k, e) in refused.into_iter().enumerate() {
+                threads[k % (nthreads - 1).max(1)].push(Op::Store(e));
+            }
+            let mut fresh_ids = vec![];
+            for _ in 0..(1 + g.rng.usize(3)) {
+                let mut e = g.new_event();
+                e.kind = 1;
+                let len = *g.rng.pick(&[0usize, 30, 300, 900, 2100]) + g.rng.usize(40);
+                let seed = g.rng.next();
+                e.content = (0..len).map(|i| (seed.wrapping_mul(i as u64 + 7) >> 10) as u8).collect();
+                fresh_ids.push(e.id);
+                threads[nthreads - 1].push(Op::Store(e));
+            }
+            if g.rng.chance(1, 2) {
+                let t = g.rng.usize(nthreads);
+                threads[t].push(Op::Get(*g.rng.pick(&fresh_ids)));
+            }
+            for t in threads.iter_mut() {
+                let mut v = std::mem::take(t);
+                g.rng.shuffle(&mut v);
+                *t = v;
+            }
+        }
         8 => {
             // one event stored, removed and stored again by different threads
             let e = if g.rng.chance(1, 2) { g.new_event() } else { g.new_version() };
@@ -828,10 +884,37 @@ enum Policy {
 pub struct ConcResult {
     pub result: RunResult,
     pub schedule: Vec<u8>,
+    /// (thread, index) of the concurrent store calls that were refused
+    pub refused: Vec<(usize, usize)>,
 }
 
 pub fn run_conc(trace: &Trace, scratch: PathBuf, known: &BTreeSet<String>, verbose: bool) -> RunResult {
-    run_conc_full(trace, scratch, verbose, known).result
+    let mut full = run_conc_full(trace, scratch.clone(), verbose, known);
+    // C12, differentially: when the run ended in a finding and some of the concurrent stores were
+    // refused, the same run is repeated without them. A refused store changes nothing; if the
+    // store is sound without the refused calls and unsound with them, they changed something.
+    if let Some(f) = &mut full.result.finding {
+        // (not when the stores and lookups are already explained and only a query answer is not:
+        // that is not something a refused store did)
+        if !f.props.is_empty() && !f.props.contains(&"C12") && !f.props.contains(&"C05") && !full.refused.is_empty() {
+            let mut t2 = trace.clone();
+            for (t, ops) in t2.threads.iter_mut().enumerate() {
+                let mut idx = 0usize;
+                ops.retain(|_| {
+                    let keep = !full.refused.contains(&(t, idx));
+                    idx += 1;
+                    keep
+                });
+            }
+            t2.schedule = vec![];
+            let again = run_conc_full(&t2, scratch.join("without-refused"), false, known);
+            if again.result.finding.is_none() {
+                f.props.push("C12");
+                f.detail.push_str("; C12: the same threads without the refused store calls leave a store that is explained in full - the refused calls changed something");
+            }
+        }
+    }
+    full.result
 }
 
 pub fn run_conc_full(trace: &Trace, scratch: PathBuf, verbose: bool, known_open: &BTreeSet<String>) -> ConcResult {
@@ -843,6 +926,7 @@ pub fn run_conc_full(trace: &Trace, scratch: PathBuf, verbose: bool, known_open:
     let finish = |finding: Option<Finding>, stats: Stats, log: Vec<String>, sig: u64, n: usize, schedule: Vec<u8>| ConcResult {
         result: RunResult { finding, known: vec![], stats, log, signature: sig, ops_executed: n },
         schedule,
+        refused: vec![],
     };
     pocket_db::verif::install(None);
     pocket_types::verif_clock::set(Some(crate::gen::T0 + 100));
@@ -1267,6 +1351,21 @@ pub fn run_conc_full(trace: &Trace, scratch: PathBuf, verbose: bool, known_open:
             }
             // which other statements does the final state contradict (true under ANY order)?
             let mut props: Vec<&'static str> = vec!["C14"];
+            // are the queries the culprit? (everything else explained, some answer the exact
+            // answer of no state between its start and its end)
+            if sorted.iter().any(|r| matches!(r.op, Op::Query(_))) {
+                let noq: Vec<OpRecord> = sorted.iter().filter(|r| !matches!(r.op, Op::Query(_))).cloned().collect();
+                let mut per2: Vec<Vec<usize>> = vec![vec![]; n];
+                for (i, r) in noq.iter().enumerate() {
+                    per2[r.thread].push(i);
+                }
+                let mut s2 = Search { recs: &noq, per_thread: per2, enc: &enc, final_obs: &final_obs, opts: ObsOpts { battery: false, extra: false, offsets: true }, budget: 200_000, leaf_mismatch: None };
+                let mut next2 = vec![0usize; n];
+                if s2.dfs(&mut next2, &model, &[], 0) == Some(true) {
+                    props.push("C05");
+                    detail.push_str("; C05: stores, removals and lookups are explained by an order, the query answers are not: an answer is not the exact answer for any state the store was in");
+                }
+            }
             let mut inv = state_invariants(&store, &model, &sorted, &enc);
             inv.extend(answer_invariants(&model, &sorted));
             inv.extend(path_agreement(&store, &model, &sorted));
@@ -1332,6 +1431,11 @@ pub fn run_conc_full(trace: &Trace, scratch: PathBuf, verbose: bool, known_open:
     }
     let mut r = finish(finding, stats, log, sig, nops, schedule);
     r.result.known = known_out;
+    r.refused = sorted
+        .iter()
+        .filter(|x| matches!(&x.out, Outcome::Store(so) if !matches!(so, StoreOutcome::Ok(_) | StoreOutcome::Panic(_))))
+        .map(|x| (x.thread, x.idx))
+        .collect();
     r
 }
 
